@@ -130,7 +130,7 @@ func (ex *Exec) digest(h *HashV) *Term {
 		}
 		cur = append(cur, sg.B...)
 	}
-	if allConst && (h.Kind == "sha256" || h.Kind == "sha512") {
+	if false && allConst && (h.Kind == "sha256" || h.Kind == "sha512") { // disabled: mixing real digests of constants with UF digests of symbolic bytes is inconsistent
 		bs := make([]byte, len(cur))
 		for i, b := range cur {
 			bs[i] = byte(b.U)
